@@ -491,7 +491,7 @@ PROPS["C18"] = dict(
 
 _SHIM = ["-I", "@HERE@/lib/shim", "-pthread"]
 PROPS["C04"] = dict(
-    units=[dict(name="c04-float", src="props/c04.cpp", flags=["-DVERIF_T=float"] + _SHIM, libs=["-ldl", "-pthread"]),
+    units=[dict(name="c04-float", src="props/c04.cpp", enum=True, flags=["-DVERIF_T=float"] + _SHIM, libs=["-ldl", "-pthread"]),
            dict(name="c04-double", src="props/c04.cpp", flags=["-DVERIF_T=double"] + _SHIM, libs=["-ldl", "-pthread"]),
            dict(name="c04-ldouble", src="props/c04.cpp", flags=["-DVERIF_T=long double"] + _SHIM, libs=["-ldl", "-pthread"])],
     engine="mpi-shim",
